@@ -4,6 +4,7 @@ import (
 	"fmt"
 	"reflect"
 	"sort"
+	"strings"
 
 	"github.com/freeconf/yang/meta"
 	"github.com/freeconf/yang/node"
@@ -124,6 +125,10 @@ func inspectVal(defs []meta.Definition, v reflect.Value) *model.Tree {
 			if !fd.IsValid() {
 				continue
 			}
+			if v.Kind() == reflect.Struct && (fd.Kind() == reflect.Slice || fd.Kind() == reflect.Map) && fd.Len() == 0 {
+				// a struct field always exists: nil / empty stands for "no list"
+				continue
+			}
 			l := &model.List{}
 			switch fd.Kind() {
 			case reflect.Map:
@@ -153,6 +158,12 @@ func inspectVal(defs []meta.Definition, v reflect.Value) *model.Tree {
 			}
 			if !fd.IsValid() {
 				continue
+			}
+			if v.Kind() == reflect.Struct {
+				if lf, ok := d.(meta.Leafable); ok {
+					t.Leaves[id] = model.Leaf{Canon: canonStructLeaf(lf.Type(), fd)}
+					continue
+				}
 			}
 			t.Leaves[id] = model.Leaf{Canon: model.CanonRaw(fd.Interface())}
 		}
@@ -257,4 +268,28 @@ func toGo(defs []meta.Definition, t *model.Tree, slices bool) (map[string]interf
 		}
 	}
 	return out, true
+}
+
+// canonStructLeaf renders a Go struct field holding a leaf: enumerations and
+// identityrefs are kept as their names in string fields.
+func canonStructLeaf(t *meta.Type, fd reflect.Value) string {
+	one := func(x reflect.Value) string {
+		if x.Kind() == reflect.String {
+			switch t.Format().Single() {
+			case val.FmtEnum:
+				return "enum:" + x.String()
+			case val.FmtIdentityRef:
+				return "id:" + x.String()
+			}
+		}
+		return model.CanonRaw(x.Interface())
+	}
+	if fd.Kind() == reflect.Slice {
+		var parts []string
+		for i := 0; i < fd.Len(); i++ {
+			parts = append(parts, one(fd.Index(i)))
+		}
+		return "[" + strings.Join(parts, ",") + "]"
+	}
+	return one(fd)
 }
